@@ -20,9 +20,12 @@ UNIT_CATS = ('convert-from-unit', 'sum-mix', 'add-units', 'to-storage', 'from-st
 
 
 def run(ctx):
+    from . import unitspec as _us
+    _us.api_verified(ctx, 'C10.R1')
     n = pairing(ctx, 'C10.R1')
     floor(ctx, 'writers of contents', n, 4)
     observers(ctx)
+    cached_results_intact(ctx, 'C10.R2')
     return {'explanation': 'R1 (pairing): for every function and object whose contents are written, every normal exit '
                            'carries a definition of that object\'s volume that is either a full recompute - a sum over '
                            'the items of the same object\'s contents, read at the version of the contents that holds '
@@ -314,3 +317,28 @@ def observers(ctx):
                 bad.append(f"[{label}] returns values in {u}")
         ctx.ob('C10.R2', fi, fi.node.lineno, f"{q} returns per-well values in the requested unit", not bad and nret > 0,
                fact=f"{nret} returning paths", why='; '.join(sorted(set(bad))[:3]), key=f"{q} result")
+
+
+def cached_results_intact(ctx, rule):
+    """The observers has_liquid / get_substances / dataframe are cached per container: their answer agrees with the
+    contents only as long as nobody changes the returned object in place (engine O, class CACHED)."""
+    from ..fresh import Fresh, CACHED
+    from ..effects import mutating_call_oracle
+    model = ctx.model
+    fr = Fresh(model, mutating_call_oracle(model))
+    n, bad = 0, 0
+    for fi in model.funcs.values():
+        if fi.parent is not None or fi.mod.rel not in ('pyplate/pyplate.py', 'pyplate/slicer.py'):
+            continue
+        for e in fr.analyse(fi):
+            n += 1
+            if e.cls == CACHED and not e.ok:
+                bad += 1
+                ctx.ob(rule, fi, e.line, f"{e.desc} [{e.fi.qualname}]", False, fact=f"{e.cls}: {e.why}",
+                       why='a cached observer result is changed in place: the container then reports substances / '
+                           'tables that disagree with its contents', key=f"cached result mutated: {e.target_text}")
+    cached = sorted(f.qualname for f in model.funcs.values() if f.is_cached and f.cls is not None)
+    fi0 = model.func(cached[0]) if cached else model.func('Container.get_volume')
+    ctx.ob(rule, fi0, fi0.node.lineno, 'no result of a cached observer is mutated in place', bad == 0,
+           fact=f"{n} mutation events examined; cached observers: {cached}",
+           why='see the events reported', key='cached observers intact')
